@@ -798,7 +798,7 @@ impl FrameSet {
     }
 
     fn get_all_frames(&self) -> HashMap<FrameIdentifier, FrameAttributes> {
-        self.frames.clone()
+        self.frames.clone().into_iter().collect()
     }
 
     /// Return a new `FrameSet` which describes only the given `FrameIdentifier`s.
